@@ -13,8 +13,8 @@ CONSTANTS
   XQs = {}
   XfrIds = {}
   XfrAll = FALSE
-  QVars = {101, 201, 301, 401}
-  EndKinds = {"eof", "wfail", "stall"}
+  QVars = {}
+  EndKinds = {"eof", "stall"}
   Frames <- MCFrames
 SPECIFICATION MacroSpec
 VIEW View
